@@ -486,3 +486,43 @@ class LineBudget:
             return fn(*a, **kw)
         finally:
             sys.settrace(old)
+
+
+# ----------------------------------------------------------------------------
+# tqdm stand-in (ProgressBarMixin imports tqdm lazily; the package is not installed here)
+
+
+class _FakeTqdm:
+    """What ProgressBarMixin needs of tqdm.tqdm: wraps an iterable, keeps its length, yields its items, prints nothing."""
+
+    made = 0
+
+    def __init__(self, iterable=None, *args, **kwargs):
+        self.iterable = iterable
+        type(self).made += 1
+
+    def __iter__(self):
+        return iter(self.iterable)
+
+    def __len__(self):
+        return len(self.iterable)
+
+
+def install_fake_tqdm():
+    import sys
+    import types
+
+    mod = sys.modules.get('tqdm')
+    if mod is None or not getattr(mod, '_fsic_sim_stub', False):
+        mod = types.ModuleType('tqdm')
+        mod._fsic_sim_stub = True
+        mod.tqdm = _FakeTqdm
+        sys.modules['tqdm'] = mod
+    return mod
+
+
+def mixin_table():
+    from fsic.extensions import AliasMixin, PandasIndexFeaturesMixin, ProgressBarMixin, TracerMixin
+
+    install_fake_tqdm()
+    return {'alias': AliasMixin, 'tracer': TracerMixin, 'pandas': PandasIndexFeaturesMixin, 'progress': ProgressBarMixin}
